@@ -371,6 +371,7 @@ structure St where
   deriving Repr, Inhabited
 
 def statusNotificationNotSupported : Int := -70406
+def statusReadOnly : Int := -70404
 
 def JVal.isNull : JVal → Bool
   | .null => true
@@ -378,17 +379,21 @@ def JVal.isNull : JVal → Bool
 
 /-- body of the handler's loop for one entry; returns the status entry it appends, if any -/
 def putEntry (s : St) (e : PutEntry) : St × Outcome × Option Int :=
+  -- (the handler does not call `UpdateValueFromConnection` on a characteristic that is not writable — F75 —; the call
+  --  changes nothing there, `updateValue_no_pw`, so the state is computed as before)
   let r : Chr × Outcome :=
     if JVal.isNull e.value then (s.char, .ok) else updateValue s.char (ofJson e.value) true true
+  -- F75: a value for a characteristic that is not writable is answered with a status, not skipped silently
+  let st0 : Option Int := if !JVal.isNull e.value && !s.char.cfg.perms.pw then some statusReadOnly else none
   match r.2 with
   | .panic => ({ s with char := r.1 }, .panic, none)
   | .ok =>
     let s1 : St := { s with char := r.1 }
-    if JVal.isNull e.ev then (s1, .ok, none)
+    if JVal.isNull e.ev then (s1, .ok, st0)
     else if !s1.char.cfg.perms.ev then (s1, .ok, some statusNotificationNotSupported)
     else match e.ev with
-      | .bool b => ({ s1 with sub := b }, .ok, none)
-      | _ => (s1, .ok, none)
+      | .bool b => ({ s1 with sub := b }, .ok, st0)
+      | _ => (s1, .ok, st0)
 
 /-- the loop; a panic aborts the request (net/http recovers it per connection) -/
 def putEntries : St → List PutEntry → List Int → St × Outcome × List Int
@@ -397,6 +402,11 @@ def putEntries : St → List PutEntry → List Int → St × Outcome × List Int
     match putEntry s e with
     | (s1, .panic, _) => (s1, .panic, [])   -- no response is written
     | (s1, .ok, st) => putEntries s1 es (acc ++ st.toList)
+
+/-- the status of every entry, in order: 0 for an entry that succeeded (F75) -/
+def putStatuses : St → List PutEntry → List Int
+  | _, [] => []
+  | s, e :: es => (putEntry s e).2.2.getD 0 :: putStatuses (putEntry s e).1 es
 
 -- operations and runs -------------------------------------------------------------------------------
 
@@ -425,8 +435,10 @@ def step (s : St) : Op → St × Out
     let r := getValue s.char fc gf
     ({ s with char := r.1 }, ⟨r.2.1, [], r.2.2⟩)
   | .put es =>
+    -- F75: when any entry failed the answer is a multi-status answer with a status for EVERY entry (0 for the ones that
+    -- succeeded), otherwise it has no content
     let r := putEntries s es []
-    (r.1, ⟨r.2.1, r.2.2, .nil⟩)
+    (r.1, ⟨r.2.1, if r.2.2.isEmpty then [] else putStatuses s es, .nil⟩)
 
 /-- every step's resulting state and output, in order -/
 def trace : St → List Op → List (St × Out)
